@@ -708,3 +708,73 @@ def run_comment_ref_unique(prog, tier, repo):
                     res.ok(key, b.loc(st[3]), 'the node the reference is taken from is not kept (destructured / replaced)')
     res.analysed['references_copied_out_of_nodes'] = n
     return [res]
+
+
+# ---------------------------------------------------------------------------------------------------------------------
+# COMMENT-TOKEN-KEPT (C09): the lexer hands comments to the parser as tokens; the parser's token pump turns each of them into
+# a pending comment. Wherever a parser function asks the lexer for the next token and branches on a comment variant of the
+# token content, every path from that arm back to the next request (or to the function's return) pushes a comment onto a
+# vector. A path that skips the push loses that comment before any production can attach it.
+
+def run_comment_token_kept(prog, tier, repo):
+    res = RuleResult('COMMENT-TOKEN-KEPT', 'C09: every comment token the parser receives from the lexer is stored as a pending comment '
+                     'on every path (none is filtered out by content or context)')
+    tc = [a for a in prog.adts.values() if a.name == 'samlang_parser::lexer::TokenContent']
+    if len(tc) != 1:
+        res.cannot_decide('samlang_parser::lexer::TokenContent')
+        return [res]
+    comment_variants = {i: v.name for i, v in enumerate(tc[0].variants) if 'Comment' in v.name}
+    if not comment_variants:
+        res.cannot_decide('no comment variant in TokenContent')
+        return [res]
+    n = 0
+    for b in sorted(prog.bodies.values(), key=lambda x: x.name):
+        if b.crate != 'samlang_parser' or '::tests' in b.name or '::lexer::' in b.name:
+            continue
+        pumps = [bi for bi, bl in enumerate(b.blocks) if not bl.cleanup and bl.term[0] == 'call'
+                 and (callee(bl.term)[1] or '').split('::')[-1] == 'next_token' and '::lexer::' in (callee(bl.term)[1] or '')]
+        if not pumps:
+            continue
+        cfg = cfg_of(b)
+        pushes = []
+        for bi, bl in enumerate(b.blocks):
+            t = bl.term
+            if bl.cleanup or t[0] != 'call' or (callee(t)[1] or '').split('::')[-1] not in ('push', 'push_back', 'insert', 'extend'):
+                continue
+            if any(o[0] in ('c', 'm') and 'Comment' in strip_refs(b.locals[o[1].local]).s for o in t[3][1:]):
+                pushes.append(bi)
+        for bi, bl in enumerate(b.blocks):
+            t = bl.term
+            if bl.cleanup or t[0] != 'switch':
+                continue
+            # a switch on the discriminant of a TokenContent place
+            sd = single_def(b, t[1][1].local) if t[1][0] in ('c', 'm') else None
+            if not (sd and sd[1] != 'term' and sd[2][0] == 'disc'):
+                continue
+            pl = sd[2][1]
+            pty = b.locals[pl.local]
+            for e in pl.proj:
+                if e[0] == 'f':
+                    pty = e[5]
+                elif e[0] == 't':
+                    pty = e[2]
+                elif e[0] == 'd' and pty.args:
+                    pty = pty.args[0]
+            if strip_refs(pty).k != 'adt' or strip_refs(pty).name != tc[0].name:
+                continue
+            for v, tgt in t[2]:
+                if v not in comment_variants:
+                    continue
+                n += 1
+                key = f'kept:{b.name}:{comment_variants[v]}'
+                # can the arm reach the next token request or the return without pushing a comment?
+                r = cfg._reach_from(tgt, set(pushes), set()) if tgt not in pushes else set()
+                leak = [x for x in r if x in pumps or x in cfg.exits]
+                if leak:
+                    res.violation(key, b.loc(t[4]), f'{b.name} receives a {comment_variants[v]} token from the lexer and there is a '
+                                  f'path from that arm to the next token request (or the return) on which no comment is pushed: '
+                                  f'comments that take this path never reach a syntax node, so formatting drops them')
+                else:
+                    res.ok(key, b.loc(t[4]), 'stored on every path')
+    res.floor('comment-token arms of the parser\'s token pump', n, 3)
+    return [res]
